@@ -315,7 +315,7 @@ Definition stage_list (n : N) : list N := map N.of_nat (seq 0 (N.to_nat n)).
 (* ModuleRef::module_restart: active := true; for stage in 0..n { at_sim_start(stage)? } *)
 Definition module_restart (k : N) (c : modcfg) (now m : N) (s : xs) : xs :=
   let s0 := on_w (fun w => set_mod w m (set_active (w_mod w m) true)) s in
-  fst (fold_left (fun acc stage => if snd acc then acc else at_sim_start k c now m stage (fst acc))
+  fst (fold_left (fun (acc : xs * bool) stage => if snd acc then acc else at_sim_start k c now m stage (fst acc))
                  (stage_list (c_stages c)) (s0, false)).
 
 (* ModuleRef::handle_message *)
@@ -356,6 +356,7 @@ Definition process (sc : script) (w : world) (t : N) (ev : fev) : world * list i
 (* ---- the trace ---- *)
 Inductive ekind :=
 | KStart (stage m : N)      (* SimLifecycle::at_sim_start, one (stage, module) pair *)
+| KBoot                     (* end of the start-up phase: first is_active sample *)
 | KLoop (ev : fev)          (* one dispatched event *)
 | KEnd (m : N).             (* SimLifecycle::at_sim_end, one module *)
 
@@ -432,7 +433,8 @@ Record result := { r_trace : list erec; r_err : list (bool * N); r_ok : bool }.
 
 Definition run_script (sc : script) : result :=
   let '(w0, tr0) := sim_start sc (init_world sc) in
-  match iter_until (fuel sc) (loop_step sc) (w0, 0, tr0) with
+  let boot := {| e_kind := KBoot; e_time := 0; e_items := [ISample 0 (mask sc w0)] |} in
+  match iter_until (fuel sc) (loop_step sc) (w0, 0, tr0 ++ [boot]) with
   | inr (w, now, tr) => let '(w', tr') := sim_end sc now w in
                         {| r_trace := tr ++ tr'; r_err := w_err w'; r_ok := true |}
   | inl (w, _, tr) => {| r_trace := tr; r_err := w_err w; r_ok := false |}
